@@ -66,6 +66,7 @@ FAULT_CLASSES = {
     "AssertionError": AssertionError,
     "KeyError": KeyError,
     "AttributeError": AttributeError,
+    "TypeError": TypeError,
     "StopIteration": StopIteration,
     "CancelledError": asyncio.CancelledError,
 }
@@ -187,6 +188,7 @@ class Run:
         self.faults_fired = {}
         self.fired_excs = []
         self.pending = []
+        self.hooks = {}
         self.ga_armed = {}
         self.spawned = 0
         self.foreign_close = None
@@ -569,6 +571,9 @@ class Run:
     def nested(self, a, tx, n):
         if isinstance(n, dict) and "spawn" in n:
             return self.spawn(n)
+        if isinstance(n, dict) and "hook" in n:
+            h = self.hooks.get(n["hook"])
+            return h() if h is not None else None
         td = self._td_of(tx, n)
         if self.world.is_async(td):
             raise HarnessError("sync hand-over cannot call async unit")
@@ -580,6 +585,12 @@ class Run:
     async def anested(self, a, tx, n):
         if isinstance(n, dict) and "spawn" in n:
             return self.spawn(n)
+        if isinstance(n, dict) and "hook" in n:
+            h = self.hooks.get(n["hook"])
+            r_ = h() if h is not None else None
+            if r_ is not None and hasattr(r_, "__await__"):
+                await r_
+            return None
         td = self._td_of(tx, n)
         if self.world.is_async(td):
             out = await self.acall(td, parent=tx)
